@@ -46,7 +46,7 @@ func c03Child() {
 			power.Set(i)
 		}
 	}
-	ts, err := newTS(TSOpt{NoOutbox: true, PreserveForks: true, BannerFile: true, Board: "old news\r", Agreement: "be nice\r",
+	ts, err := newTS(TSOpt{NoOutbox: true, PreserveForks: true, BannerFile: true, Board: strings.Repeat("old news ", 4400) + "\r", Agreement: "be nice\r",
 		News: "Categories:\n  General:\n    Type: [0, 3]\n    Name: General\n    Articles: {}\n    SubCats: {}\n",
 		Accounts: []AcctSpec{
 			{Login: "guest", Name: "guest", Password: "", Access: guestAccess()},
@@ -611,6 +611,14 @@ func hostileTransfer(r *RNG, src string, port int) (string, bool) {
 			}
 		}
 	}
+	// sometimes present the same genuine reference number on a second connection at the same time
+	if r.Chance(30) {
+		if c2, err := dialFrom(src, port+1); err == nil {
+			defer c2.Close()
+			c2.SetDeadline(time.Now().Add(6 * time.Second))
+			c2.Write(pre)
+		}
+	}
 	c.Write(pre)
 	c.Write(payload.Bytes())
 	// drain briefly
@@ -657,6 +665,24 @@ func init() {
 				return
 			}
 			defer sentinel.c.Close()
+			// a logged-in client that makes the server produce megabytes for it and never reads (kept open during the batch)
+			stalled, serr := dialFrom("127.201.0.1", cs.port)
+			if serr == nil {
+				defer stalled.Close()
+				stalled.SetWriteDeadline(time.Now().Add(20 * time.Second))
+				stalled.Write(clientHandshake)
+				stalled.Write(encTran(loginTran(1, "guest", "", fld(hotline.FieldUserName, []byte("stall")))))
+				// 600 small requests, each answered with the ~40 KB message board: ~24 MB of replies nobody reads
+				req := encTran(mkTran(hotline.TranGetMsgs, 7))
+				go func() {
+					for i := 0; i < 600; i++ {
+						if _, err := stalled.Write(req); err != nil {
+							return
+						}
+					}
+				}()
+				time.Sleep(1500 * time.Millisecond)
+			}
 			// hostile batch, all concurrently, each from its own source address
 			var wg sync.WaitGroup
 			var mu sync.Mutex
@@ -696,6 +722,16 @@ func init() {
 				c.Violation("sentinel-starved", "the well-behaved client got no reply within 8 s while hostile connections were active")
 			}
 			wg.Wait()
+			// the never-reading client is still connected: the sentinel must still be served
+			if cs.alive() && !c.failed {
+				if _, ok := sentinel.request(52, hotline.TranGetUserNameList, 8*time.Second); !ok && cs.alive() {
+					c.Note("sentinel_dead", sentinel.isDead())
+					c.Violation("sentinel-starved", "the well-behaved client got no reply within 8 s while a logged-in client that never reads its replies stayed connected")
+				}
+			}
+			if stalled != nil {
+				stalled.Close()
+			}
 			c.Evals(len(seeds))
 			// let deferred clean-ups (3 s after each transfer) and delayed disconnects finish
 			settle := time.Now().Add(4500 * time.Millisecond)
